@@ -300,7 +300,6 @@ Proof.
   intro H. exists cl. repeat split; auto.
   destruct e as [pk sub p|pk]; simpl in *.
   - unfold ekey_of. destruct (classify p (ent s (c_duty cl, pk, sub))) eqn:Ecl; injection H as <-; simpl; try reflexivity.
-    unfold mfire, ekey_of, ex_of. rewrite Ecl. reflexivity.
   - injection H as <-. reflexivity.
 Qed.
 
@@ -349,10 +348,10 @@ Lemma mfire_iff s cl pk sub p x :
   mfire s cl (EGood pk sub p) = Some x <->
   classify p (ent s k) = VNew /\ length g = t /\ x = (pk, sub, g).
 Proof.
-  simpl. unfold mfire. destruct (classify p (ent s (ekey_of cl pk sub))) eqn:Ecl;
+  cbv zeta. unfold mfire. destruct (classify p (ent s (ekey_of cl pk sub))) eqn:Ecl;
     try (split; [discriminate | intros [H _]; discriminate]).
   rewrite store_new_fired.
-  pose proof (store_new_ent s (ex_of cl) (ekey_of cl pk sub) p (ekey_of cl pk sub)) as Hs. simpl in Hs.
+  pose proof (store_new_ent s (ex_of cl) (ekey_of cl pk sub) p (ekey_of cl pk sub)) as Hs. cbv zeta in Hs.
   rewrite upd_same in Hs. change (dtype (kduty (ekey_of cl pk sub))) with (dtype (c_duty cl)).
   destruct Hs as [Hs|[Hlt Hs]]; rewrite Hs, thresh_spec.
   - rewrite last_last.
@@ -375,7 +374,7 @@ Lemma mfire_ent s cl pk sub p x :
 Proof.
   intro H. pose proof H as H0. apply mfire_iff in H0. destruct H0 as [Ecl [Hlen _]].
   unfold mstore. rewrite Ecl.
-  pose proof (store_new_ent s (ex_of cl) (ekey_of cl pk sub) p (ekey_of cl pk sub)) as Hs. simpl in Hs.
+  pose proof (store_new_ent s (ex_of cl) (ekey_of cl pk sub) p (ekey_of cl pk sub)) as Hs. cbv zeta in Hs.
   rewrite upd_same in Hs. destruct Hs as [Hs|[Hlt _]]; [exact Hs|].
   pose proof (filter_length_le (fun q => eroot (dtype (c_duty cl)) q =? eroot (dtype (c_duty cl)) p) (ent s (ekey_of cl pk sub) ++ [p])) as Hle.
   unfold group in Hlen. lia.
@@ -392,7 +391,7 @@ Lemma mstore_ent s cl e k' :
 Proof.
   destruct e as [pk sub p|pk]; simpl; [|left; reflexivity].
   destruct (classify p (ent s (ekey_of cl pk sub))) eqn:Ecl; simpl; try (left; reflexivity).
-  pose proof (store_new_ent s (ex_of cl) (ekey_of cl pk sub) p k') as Hs. simpl in Hs.
+  pose proof (store_new_ent s (ex_of cl) (ekey_of cl pk sub) p k') as Hs. cbv zeta in Hs.
   destruct (key_eqb k' (ekey_of cl pk sub)) eqn:Ek.
   - apply key_eqb_eq in Ek. subst k'. rewrite upd_same in Hs. right. exists pk, sub, p. repeat split; auto.
     destruct Hs as [Hs|[Hlt Hs]]; [left; auto | right; right; auto].
@@ -417,7 +416,210 @@ Proof.
   - intros _. apply find_share_none. exact E.
 Qed.
 
-Lemma nodup_snoc p l : NoDup (map share l) -> ~ In (share p) (map share l) -> NoDup (map share (l ++ [p])).
+Lemma nodup_snoc_gen {A} (l : list A) x : NoDup l -> ~ In x l -> NoDup (l ++ [x]).
 Proof.
-  intros Hn Hp. rewrite map_app. simpl. apply NoDup_remove_inv_snoc; auto.
+  induction l as [|y l IH]; simpl; intros Hn Hx; [constructor; [tauto | constructor]|].
+  inversion Hn as [|z zs Hy Hl]; subst. constructor.
+  - rewrite in_app_iff. simpl. intros [H|[H|[]]]; [contradiction | subst; apply Hx; left; reflexivity].
+  - apply IH; [exact Hl | tauto].
+Qed.
+
+Lemma nodup_snoc p l : NoDup (map share l) -> ~ In (share p) (map share l) -> NoDup (map share (l ++ [p])).
+Proof. intros Hn Hp. rewrite map_app. simpl. apply nodup_snoc_gen; auto. Qed.
+
+Lemma step_begin s c i d st b s' : step t s (ABegin c i d st b) = Some s' ->
+  calls s c = None /\ NoDup (map epk b) /\
+  s' = St (ent s) (kbd s) (exm s) (updc (calls s) c (Some (new_call i d st b))).
+Proof.
+  unfold step, step_gen. destruct (calls s c); [discriminate|].
+  destruct (nodupb (map epk b)) eqn:E; [|discriminate]. intro H. injection H as <-.
+  repeat split; auto. clear -E. induction (map epk b) as [|x r IH]; [constructor|].
+  simpl in E. apply andb_true_iff in E. destruct E as [E1 E2]. constructor; [|apply IH; exact E2].
+  intro Hin. apply negb_true_iff in E1. assert (existsb (Nat.eqb x) r = true); [|congruence].
+  apply existsb_exists. exists x. split; [exact Hin | apply Nat.eqb_refl].
+Qed.
+
+Lemma step_end s c er out il s' : step t s (AEnd c er out il) = Some s' ->
+  exists cl, calls s c = Some cl /\ c_open cl = true /\
+    (c_abort cl = false -> c_todo cl = [] /\ out_ok (c_out cl) out = true) /\
+    err_ok cl er = true /\ il = (c_int cl && is_enone er) /\
+    s' = St (ent s) (kbd s) (exm s) (updc (calls s) c (Some (closed cl))).
+Proof.
+  unfold step, step_gen. destruct (calls s c) as [cl|]; [|discriminate].
+  destruct (c_open cl && _ && err_ok cl er && Bool.eqb il (c_int cl && is_enone er)) eqn:E; [|discriminate].
+  intro H. injection H as <-. exists cl.
+  apply andb_true_iff in E. destruct E as [E E4]. apply andb_true_iff in E. destruct E as [E E3].
+  apply andb_true_iff in E. destruct E as [E1 E2]. apply eqb_prop in E4.
+  split; [reflexivity|]. split; [exact E1|]. split; [|auto].
+  intro Ha. rewrite Ha in E2. apply andb_true_iff in E2. destruct E2 as [E2 E2'].
+  split; [apply is_nil_true; exact E2 | exact E2'].
+Qed.
+
+Lemma step_trim s d s' : step t s (ATrim d) = Some s' ->
+  s' = St (fun k => if duty_eqb (kduty k) d && memk k (kbd s) then [] else ent s k)
+          (filter (fun k => negb (duty_eqb (kduty k) d)) (kbd s)) (exm s) (calls s).
+Proof. unfold step, step_gen. intro H. injection H as <-. reflexivity. Qed.
+
+Lemma step_minv s l s' : MInv s -> step t s l = Some s' -> MInv s'.
+Proof.
+  intros [Hn Ha] H. destruct l as [c i d st b|c e|c er out il|d].
+  - apply step_begin in H. destruct H as [Hc [_ ->]]. split; simpl; [exact Hn|].
+    intros c' cl'. unfold updc. destruct (c' =? c); [intro E; injection E as <-; reflexivity | apply Ha].
+  - apply step_entry in H. destruct H as [cl [Hc [Ho [Hab [Hin ->]]]]]. split; simpl.
+    + intro k. destruct (mstore_ent s cl e k) as [E|[pk [sub [p [-> [Ecl [[-> E]|[[_ E]|[-> [_ E]]]]]]]]]]; rewrite E.
+      * apply Hn.
+      * apply nodup_snoc; [apply Hn | apply classify_new; exact Ecl].
+      * apply NoDup_map_filter, Hn.
+      * apply NoDup_map_filter, nodup_snoc; [apply Hn | apply classify_new; exact Ecl].
+    + intros c' cl'. unfold updc. destruct (c' =? c); [|apply Ha].
+      intro E; injection E as <-. destruct (mcall_static s cl e) as [_ [_ [_ [_ [_ ->]]]]]. exact Hab.
+  - apply step_end in H. destruct H as [cl [Hc [_ [_ [_ [_ ->]]]]]]. split; simpl; [exact Hn|].
+    intros c' cl'. unfold updc. destruct (c' =? c); [|apply Ha].
+    intro E; injection E as <-. simpl. eapply Ha; eauto.
+  - apply step_trim in H. subst s'. split; simpl; [|exact Ha].
+    intro k. destruct (duty_eqb (kduty k) d && memk k (kbd s)); [constructor | apply Hn].
+Qed.
+
+Lemma run_minv ls : forall s s', MInv s -> run t s ls = Some s' -> MInv s'.
+Proof.
+  induction ls as [|l r IH]; intros s s' I H; [injection H as <-; exact I|].
+  apply run_cons in H. destruct H as [s1 [H1 H2]]. eapply IH; [eapply step_minv; eauto | exact H2].
+Qed.
+
+(* ---- how the record of call c evolves ---- *)
+Definition is_entry_of (c : nat) (l : label) : Prop := exists e, l = AEntry c e.
+
+Lemma step_call s l s' c cl : step t s l = Some s' -> calls s' c = Some cl ->
+  (exists e cl1, l = AEntry c e /\ calls s c = Some cl1 /\ cl = mcall s cl1 e)
+  \/ (~ is_entry_of c l /\
+      ((calls s c = None /\ c_out cl = [] /\ exists i d st b, l = ABegin c i d st b /\ cl = new_call i d st b)
+       \/ (exists cl1, calls s c = Some cl1 /\ c_out cl = c_out cl1 /\ c_duty cl = c_duty cl1 /\ c_st cl = c_st cl1
+                       /\ c_int cl = c_int cl1 /\ c_mis cl = c_mis cl1 /\ c_oth cl = c_oth cl1))).
+Proof.
+  intros H Hc. destruct l as [c' i d st b|c' e|c' er out il|d].
+  - right. split; [intros [e E]; discriminate|].
+    apply step_begin in H. destruct H as [Hn [_ ->]]. simpl in Hc. unfold updc in Hc.
+    destruct (Nat.eqb_spec c c') as [->|Hne].
+    + injection Hc as <-. left. repeat split; auto. exists i, d, st, b. auto.
+    + right. exists cl. auto 10.
+  - apply step_entry in H. destruct H as [cl1 [Hc1 [_ [_ [_ ->]]]]]. simpl in Hc. unfold updc in Hc.
+    destruct (Nat.eqb_spec c c') as [->|Hne].
+    + injection Hc as <-. left. exists e, cl1. auto.
+    + right. split; [intros [e' E]; injection E as -> _; contradiction|]. right. exists cl. auto 10.
+  - right. split; [intros [e E]; discriminate|].
+    apply step_end in H. destruct H as [cl1 [Hc1 [_ [_ [_ [_ ->]]]]]]. simpl in Hc. unfold updc in Hc.
+    destruct (Nat.eqb_spec c c') as [->|Hne].
+    + injection Hc as <-. right. exists cl1. simpl. auto 10.
+    + right. exists cl. auto 10.
+  - right. split; [intros [e E]; discriminate|].
+    apply step_trim in H. subst s'. simpl in Hc. right. exists cl. auto 10.
+Qed.
+
+Lemma step_calls_mono s l s' c cl : step t s l = Some s' -> calls s c = Some cl -> exists cl', calls s' c = Some cl'.
+Proof.
+  intros H Hc. destruct l as [c' i d st b|c' e|c' er out il|d].
+  - apply step_begin in H. destruct H as [Hn [_ ->]]. simpl. unfold updc.
+    destruct (Nat.eqb_spec c c') as [->|Hne]; [congruence | eauto].
+  - apply step_entry in H. destruct H as [cl1 [Hc1 [_ [_ [_ ->]]]]]. simpl. unfold updc. destruct (c =? c'); eauto.
+  - apply step_end in H. destruct H as [cl1 [Hc1 [_ [_ [_ [_ ->]]]]]]. simpl. unfold updc. destruct (c =? c'); eauto.
+  - apply step_trim in H. subst s'. simpl. eauto.
+Qed.
+
+Lemma run_calls_mono ls : forall s s' c cl, run t s ls = Some s' -> calls s c = Some cl -> exists cl', calls s' c = Some cl'.
+Proof.
+  induction ls as [|l r IH]; intros s s' c cl H Hc; [injection H as <-; eauto|].
+  apply run_cons in H. destruct H as [s1 [H1 H2]].
+  destruct (step_calls_mono _ _ _ _ _ H1 Hc) as [cl1 Hc1]. eapply IH; eauto.
+Qed.
+
+(* A firing of call c at a position of the trace. *)
+Definition fired_in (pre : list label) (c : nat) (x : nat * nat * list partial) : Prop :=
+  exists p1 e p2 s0 cl0, pre = p1 ++ AEntry c e :: p2 /\ run t init p1 = Some s0 /\
+                         calls s0 c = Some cl0 /\ mfire s0 cl0 e = Some x.
+
+Lemma fired_in_snoc pre l c x : fired_in pre c x -> fired_in (pre ++ [l]) c x.
+Proof.
+  intros [p1 [e [p2 [s0 [cl0 [-> H]]]]]]. exists p1, e, (p2 ++ [l]), s0, cl0.
+  split; [rewrite <- app_assoc; reflexivity | exact H].
+Qed.
+
+(* B: what is due to the threshold subscribers in call c is exactly what c's own entries fired *)
+Theorem due_exact pre : forall s c cl, run t init pre = Some s -> calls s c = Some cl ->
+  forall x, In x (c_out cl) <-> fired_in pre c x.
+Proof.
+  induction pre as [|l pre IH] using rev_ind; intros s c cl Hrun Hc x.
+  - injection Hrun as <-. discriminate.
+  - apply run_snoc in Hrun. destruct Hrun as [s1 [Hrun Hstep]].
+    destruct (step_call _ _ _ _ _ Hstep Hc) as [[e [cl1 [-> [Hc1 ->]]]]|[Hne [[Hn [Ho _]]|[cl1 [Hc1 [Ho _]]]]]].
+    + rewrite mcall_out, in_app_iff, (IH _ _ _ Hrun Hc1). split.
+      * intros [H|H]; [apply fired_in_snoc; exact H|].
+        exists pre, e, [], s1, cl1. repeat split; auto.
+        destruct (mfire s1 cl1 e); simpl in H; [destruct H as [->|[]]; reflexivity | contradiction].
+      * intros [p1 [e' [p2 [s0 [cl0 [E [Hr0 [Hc0 Hf]]]]]]]].
+        apply snoc_split in E. destruct E as [[-> [-> E]]|[p2' [-> ->]]].
+        -- injection E as <-. rewrite Hrun in Hr0. injection Hr0 as <-. rewrite Hc1 in Hc0. injection Hc0 as <-.
+           right. rewrite Hf. left. reflexivity.
+        -- left. exists p1, e', p2', s0, cl0. auto.
+    + rewrite Ho. split; [contradiction|].
+      intros [p1 [e' [p2 [s0 [cl0 [E [Hr0 [Hc0 Hf]]]]]]]].
+      apply snoc_split in E. destruct E as [[-> [-> E]]|[p2' [-> ->]]].
+      * exfalso. apply Hne. exists e'. auto.
+      * unfold run in Hrun. apply run_app in Hrun. destruct Hrun as [s0' [Hr0' Hrest]].
+        unfold run in Hr0. rewrite Hr0 in Hr0'. injection Hr0' as <-.
+        destruct (run_calls_mono _ _ _ _ _ Hrest Hc0) as [cl' Hc']. congruence.
+    + rewrite Ho, (IH _ _ _ Hrun Hc1). split; [apply fired_in_snoc|].
+      intros [p1 [e' [p2 [s0 [cl0 [E [Hr0 [Hc0 Hf]]]]]]]].
+      apply snoc_split in E. destruct E as [[-> [-> E]]|[p2' [-> ->]]].
+      * exfalso. apply Hne. exists e'. auto.
+      * exists p1, e', p2', s0, cl0. auto.
+Qed.
+
+Definition outl (out : option outmap) : outmap := match out with Some o => o | None => [] end.
+
+Lemma out_ok_spec due out : out_ok due out = true ->
+  (forall x, In x (outl out) <-> In x due) /\ (out = None <-> due = []) /\ length (outl out) = length due.
+Proof.
+  destruct out as [o|]; simpl.
+  - rewrite !andb_true_iff, !forallb_forall, negb_true_iff, Nat.eqb_eq. intros [[[Hn Hl] H1] H2]. repeat split.
+    + intro Hx. apply mem_out_In. apply H1. exact Hx.
+    + intro Hx. apply mem_out_In. apply H2. exact Hx.
+    + discriminate.
+    + intros ->. discriminate.
+    + exact Hl.
+  - intro H. apply is_nil_true in H. subst. simpl. repeat split; tauto.
+Qed.
+
+(* A: a call returns after all its entries were processed; the threshold subscribers get exactly
+   what is due (and are not called iff nothing is due); an error is returned iff an entry was
+   rejected; the internal subscribers run iff the call is internal and no error is returned *)
+Theorem delivery pre c er out il post s :
+  run t init (pre ++ AEnd c er out il :: post) = Some s ->
+  exists s1 cl, run t init pre = Some s1 /\ calls s1 c = Some cl /\ c_open cl = true /\ c_todo cl = [] /\
+    (forall x, In x (outl out) <-> In x (c_out cl)) /\ (out = None <-> c_out cl = []) /\
+    length (outl out) = length (c_out cl) /\
+    (er = ENone <-> c_mis cl = false /\ c_oth cl = false) /\
+    (er = EMismatch -> c_mis cl = true) /\ (er = EOther -> c_oth cl = true) /\
+    il = (c_int cl && is_enone er).
+Proof.
+  intro H. unfold run in H. apply run_app in H. destruct H as [s1 [H1 H2]].
+  fold (run t s1 (AEnd c er out il :: post)) in H2. apply run_cons in H2. destruct H2 as [s2 [H2 _]].
+  apply step_end in H2. destruct H2 as [cl [Hc [Ho [Hab [He [Hil _]]]]]].
+  assert (I : MInv s1) by (eapply run_minv; [apply minv_init | exact H1]).
+  destruct (Hab (m_noab _ I _ _ Hc)) as [Ht Hok]. apply out_ok_spec in Hok. destruct Hok as [Hi [Hn Hl]].
+  exists s1, cl. repeat split; auto; try (apply Hi); try (apply Hn).
+  - intros ->. simpl in He. apply andb_true_iff in He. destruct He as [A _]. apply negb_true_iff in A. exact A.
+  - intros ->. simpl in He. apply andb_true_iff in He. destruct He as [_ A]. apply negb_true_iff in A. exact A.
+  - intros [A B]. destruct er; simpl in He; [reflexivity | congruence | congruence].
+  - intros ->. exact He.
+  - intros ->. exact He.
+Qed.
+
+(* A + B: delivered = fired by an entry of this very call, whatever else is in the set and
+   whatever error the call returns *)
+Theorem delivered_iff_fired pre c er out il post s :
+  run t init (pre ++ AEnd c er out il :: post) = Some s ->
+  forall x, In x (outl out) <-> fired_in pre c x.
+Proof.
+  intros H x. destruct (delivery _ _ _ _ _ _ _ H) as [s1 [cl [H1 [Hc [_ [_ [Hi _]]]]]]].
+  rewrite Hi. eapply due_exact; eauto.
 Qed.
